@@ -157,7 +157,7 @@ func monC05(rep Rep, v *View) (interesting bool) {
 	}
 	actionWorthy := len(v.Vacant()) > 0 || len(v.Condemned()) > 0
 	for _, j := range v.D {
-		if p := v.Claimed[j]; p != nil && (terminal(p) || (v.RollingUpdate && j >= v.Partition && !v.UpToDate(p))) {
+		if p := v.Claimed[j]; p != nil && (terminal(p) || (v.RollingUpdate && j >= v.Partition && v.Outdated(p))) {
 			actionWorthy = true
 		}
 	}
@@ -242,7 +242,7 @@ func monC07(rep Rep, v *View) (interesting bool) {
 				continue
 			}
 			p := v.Claimed[j]
-			if p == nil || !v.UpToDate(p) || !healthy(p) {
+			if p == nil || v.Outdated(p) || !healthy(p) {
 				rep.Violate("rolling/update-not-highest-first", "deleted %s for update although higher desired ordinal %d is not (up to date, Running, Ready)%s", pa.A.Name, j, ctx(v))
 			}
 			if touched[j] {
